@@ -26,6 +26,7 @@ servers:
 - url: https://example.org/v1
   description: production
 paths:
+  x-paths-ext: inside the paths object
   /from-base:
     get:
       responses:
